@@ -74,6 +74,8 @@ class G:
             return ["X", self.annot(), self.term(d + 1)]
         if k < 0.50 and d < self.maxdepth:
             return ["P", self.term(d + 1)]
+        if k < 0.56 and d < self.maxdepth:
+            return ["V", self.nonnil(d + 1)]      # the operand is observed (Unwind/Is/As) before it is used
         return self.nonnil(d)
 
     def kids(self, d):
@@ -132,6 +134,8 @@ def ev(t):
         if inner is None or (inner[0] == "S" and not inner[2]):   # ers.Ok: nil or an empty *Stack
             return None
         return resolve(list(reversed(parts_all([inner, ("L", int(t[1]), None)]))))
+    if h == "V":
+        return ev(t[1])
     if h == "P":
         inner = ev(t[1])
         return None if inner is None else resolve(list(reversed(parts_all([inner, ("L", 1000, None)]))))
@@ -211,6 +215,8 @@ def predicate(line, obs, allow_known=False):
     t = C.parse_sx(line)
     if obs.startswith("PANIC") or obs.startswith("bad"):
         return "implementation panicked / rejected the case: " + obs[:200]
+    if obs.startswith("UNSTABLE-OBS"):
+        return "observing the result twice (errors.Is / errors.As / Unwind / Len) gave two different answers: " + obs[13:300]
     if t[0] == "case":
         ids = [int(x) for x in t[1]]
         top = t[2]
